@@ -141,6 +141,12 @@ def flush_worker(analysis: Analysis, spec) -> dict:
                 problems.append("unrecognised job enqueued by the flush")
         if pending is not None:
             problems.append("a popped reply is never enqueued (lost)")
+        # a desired value is skipped only when it is None (confirmed / never set), not when it is merely falsy
+        for f in s.facts:
+            if f[0] == "falsy" and isinstance(f[1], tuple) and f[1] and f[1][0] == "get":
+                r_ = render(f[1])
+                if ".new_state" in r_ and r_.count(".values") >= 1 and r_.endswith(".get(*)") and ".values.get(*)" in r_ and ("isnone", f[1]) not in s.facts:
+                    problems.append("a pending desired value that is falsy but not None (\"\", 0) is skipped: it is never sent")
         drained = ("falsy", qkey) in s.facts or any(e.kind == "loopcut" for e in s.events)
         if not drained:
             problems.append("the hold queue is not drained until empty before the flush returns")
